@@ -71,6 +71,31 @@ def _nontrivial(m):
     return hinted or nreg >= 2 or nonbuiltin
 
 
+def out_of_scope_operand(m):
+    """First operand whose definition is not in a block that encloses (or is a sibling block in a region that encloses)
+    its user - IR no text could denote; xDSL's verifier does not check it. Returns a description or None."""
+    from xdsl.ir import Block, OpResult
+    for op in m.walk():
+        for v in op.operands:
+            owner = v.owner
+            dblk = owner.parent if not isinstance(owner, Block) else owner
+            if dblk is None:
+                return f"{op.name} uses a value whose defining op is detached"
+            dreg = dblk.parent
+            blk = op.parent
+            ok = False
+            while blk is not None:
+                if blk is dblk or blk.parent is dreg:
+                    ok = True
+                    break
+                reg = blk.parent
+                par = reg.parent if reg is not None else None
+                blk = par.parent if par is not None else None
+            if not ok:
+                return f"{op.name} uses a value defined in a region that does not enclose it"
+    return None
+
+
 def _float_hex_model(a_attr, b_attr) -> bool:
     """Known wrong behaviour (shared with C06): a dense float element the printer wrote as a hex literal
     (0x<bits>) is read back as the INTEGER 0x<bits> converted to float. True iff every element of b equals the
@@ -276,14 +301,16 @@ DIRECTED = [
     {"name": "near-collision-ok", "ir": _M3, "vhints": ["a", "a_1", "a_2"], "expect": []},
     {"name": "punctuation-ok", "ir": _M3, "vhints": ["-", "a.b-c$", "$.-"], "expect": []},
     {"name": "suffix-collision", "ir": _M3, "vhints": ["a", "a", "a_1_2"],
-     "expect": ["hint:suffix-retained:reparse-fail", "hint:suffix-retained:clone-print-differs"]},
+     "expect": ["hint:suffix-retained:reparse-fail"]},
     {"name": "suffix-collision-then-use", "ir": _M3.replace("}) : () -> ()", '  "test.op"(%1, %2) : (i32, i32) -> ()\n}) : () -> ()'),
      "vhints": ["a", "a", "a_1_2"],
-     "expect": ["hint:suffix-retained:reparse-fail", "hint:suffix-retained:clone-print-differs"]},
+     "expect": ["hint:suffix-retained:reparse-fail"]},
     {"name": "suffix-reprint", "ir": _M3, "vhints": ["a_1_2", None, None],
-     "expect": ["hint:suffix-retained:reprint-differs", "hint:suffix-retained:clone-print-differs"]},
+     "expect": ["hint:suffix-retained:reprint-differs"]},  # clone-print-differs until e3d6a19 (clone copies the stored hint)
     {"name": "non-ascii", "ir": _M3, "vhints": ["a\u00e9", None, "_\u4e2d1"], "expect": ["hint:non-ascii:reparse-fail"]},
-    {"name": "stripped-to-empty", "ir": _M3, "vhints": ["_0", None, None], "expect": ["hint:stripped-to-empty:clone-print-crash"]},
+    {"name": "non-ascii-block-label-cut-short", "ir": _R3.replace("[^bb1, ^bb2]", "[^bb1]"), "bhints": [None, None, "a", "a\u00b2"],
+     "expect": ["hint:non-ascii:reparse-crash", "hint:block-hint:clone-print-differs"]},
+    {"name": "stripped-to-empty", "ir": _M3, "vhints": ["_0", None, None], "expect": []},  # clone crashed (ValueError) until e3d6a19
     {"name": "block-default-collision", "ir": _R3, "bhints": [None, None, None, "bb1"],
      "expect": ["hint:block-default-name:reparse-crash", "hint:block-hint:clone-print-differs"]},
     {"name": "block-default-redeclared", "ir": _R3.replace("[^bb1, ^bb2]", ""), "bhints": [None, None, None, "bb1"],
@@ -534,6 +561,13 @@ def work(job):
                     bump("pass_failed_or_output_unverifiable(skipped)")
                     continue
                 sadd("passes_with_verified_output", pname)
+                bad = out_of_scope_operand(m)
+                if bad is not None:
+                    # the pass left a use of a value that is not visible from its user; Operation.verify does not
+                    # check visibility, no text can denote such IR (C17's domain: passes leave valid, printable IR)
+                    bump("pass_output_with_out_of_scope_operand(skipped, C17 domain)")
+                    sadd("passes_leaving_out_of_scope_operands", pname)
+                    continue
                 evaluate(f"pass:{pname}:{f}#{i}", m, ctx, "pass_output", None)
     elif kind == "hashsweep":
         import os
